@@ -17,7 +17,7 @@ from hyverif.oracles.flowgraph import FlowGraph
 
 ID = "C16"
 SHARDS = {"quick": 8, "thorough": 16}
-BUDGET = {"quick": 45, "thorough": 420}
+BUDGET = {"quick": 300, "thorough": 1800}
 RULE = ("catchment cell sets on fine grids up to 12x12 (random subsets via "
         "Catchment.from_dict and real delineations of random forests) x coarse "
         "grids with cell-size ratio 1..4 (incl. non-integer), dyadic and random "
